@@ -21,10 +21,12 @@ def instances():
                             defs=["VX_STEP=%d" % st, "VX_DESC=%d" % desc], stubs=SCALAR_STUBS, unwind=3, timeout=600, tier="quick" if (st, desc) in ((1, 0), (2, 1)) else "thorough",
                             bounds="complete runs of <= 4 iterations, step and direction fixed per instance, |first| < 10^6, break at any iteration",
                             inputs="first, iteration count, limit slack, break position"))
-    out.append(Inst(id="c06.forall.final", props=["C06", "C07", "C01"], harness="h_c06.cpp", entry="c06_forall_final", tus=FA_TUS + ["blocc/statement_for.cpp"],
-                    stubs=FMT_STUBS + CTX_STUBS + ["_ZN4bloc10CollectionC2ERKS0_", "_ZN4bloc10CollectionD0Ev", "_ZN4bloc10CollectionD2Ev"] + CONTAINER_STUBS[3:], unwind=3, timeout=300,
-                    bounds="one exit from an arbitrary iteration record (covers every exit route and loop length)",
-                    inputs="saved safety / lock flags of iterator and table, index, direction"))
+    for fe, nm in ((0, ""), (1, ".inside")):
+        out.append(Inst(id="c06.forall.final" + nm, props=["C06", "C07", "C17", "C01"] if fe else ["C06", "C07", "C01"], harness="h_c06.cpp", entry="c06_forall_final", tus=FA_TUS + ["blocc/statement_for.cpp"],
+                        defs=["VX_FEXP=%d" % fe], quick_also=["C17", "C01", "C07"] if fe else None,
+                        stubs=FMT_STUBS + CTX_STUBS + ["_ZN4bloc10CollectionC2ERKS0_", "_ZN4bloc10CollectionD0Ev", "_ZN4bloc10CollectionD2Ev"] + CONTAINER_STUBS[3:], unwind=3, timeout=300,
+                        bounds="one exit from an arbitrary iteration record (covers every exit route and loop length); iterated expression: " + ("a selection inside a variable (forwards the symbol id, is not a variable name)" if fe else "the table variable"),
+                        inputs="saved safety / lock flags of iterator and table, index, direction"))
     for o, on in (("auto", "FORALLStatement::AUTO"), ("desc", "FORALLStatement::DESC")):
         out.append(Inst(id="c06.forall.run.%s" % o, props=["C06", "C09", "C01"], harness="h_c06.cpp", entry="c06_forall_run", tus=FA_TUS + ["blocc/statement_for.cpp"],
                         defs=["VX_FORDER=%s" % on], stubs=FMT_STUBS + CTX_STUBS + CONTAINER_STUBS[3:], unwind=4, timeout=3000, tier="thorough",
